@@ -194,9 +194,16 @@ func runC01(c *kc.Ctx) {
 		}
 		rng := c.Rng.Fork("prog/" + f.model)
 		src := pointSource(f.insts[0], rng)
-		for i := 0; i < nProg; i++ {
+		// the use / overwrite / use-again patterns of C05 are histories too
+		sweep := deriveOverwritePrograms(rng.Fork("sweep"), f.q, src, groupCaps(f.insts[0]).base)
+		for i := 0; i < nProg+len(sweep); i++ {
 			dgen := c.Watch(90*time.Second, f.insts[0].Name+":pick/embed/hash", f.insts[0].Name+": generating input points through Pick/Embed/Hash", map[string]string{"group": f.insts[0].Name, "seed": fmt.Sprint(c.Seed)}, "proof")
-			p := genProg(rng.Fork(fmt.Sprint(i)), f.q, plen, src, true, true)
+			var p prog
+			if i < nProg {
+				p = genProg(rng.Fork(fmt.Sprint(i)), f.q, plen, src, true, true)
+			} else {
+				p = sweep[i-nProg]
+			}
 			dgen()
 			line := "grp " + f.model + " " + p.String()
 			for _, g := range f.insts {
